@@ -146,11 +146,12 @@ DmStepsOk(E1, lam1, Et, lamt, es, t) ==
 DmShapeOk(E, lam, n, es) == IsMatrix(E, n, es) /\ Len(lam) = es
 
 \* Gaussian kernel of lattice points: K_ik = exp(-|x_i - x_k|^2 / eps), eps = en/ed ; Elem works at 10^4
+\* (table error 2 units, rounded argument 1/2 unit, truncation of K to 10^-4 one unit: 5 units allowed)
 SqDist(a, b) == SumSeq([q \in 1..Len(a) |-> (a[q] - b[q]) * (a[q] - b[q])])
 KernelOk(K, pts, en, ed) ==
   /\ IsMatrix(K, Len(pts), Len(pts))
   /\ \A i \in 1..Len(pts) : \A k \in 1..Len(pts) :
-        Abs(K[i][k] \div 100 - ExpNeg(RoundDiv(SqDist(pts[i], pts[k]) * ed * ES, en))) <= 4
+        Abs(K[i][k] \div 100 - ExpNeg(RoundDiv(SqDist(pts[i], pts[k]) * ed * ES, en))) <= 5
 
 -----------------------------------------------------------------------------
 (* Part 2 -- bounded design model of the random projection: Fit, then Transform of batches / rows.  *)
